@@ -525,6 +525,14 @@ def run(ctx: Ctx) -> None:
         for ops in ([("set", 0, 400), ("set", 1, 0.02), ("fetch", 2, 400)], [("fetch", 0, 400), ("fetch", 1, 0.02), ("set", 2, 400)],
                     [("set", 0, 400), ("fetch", 1, 0.03), ("set", 2, 400)], [("fetch", 0, 400), ("set", 1, 0.03), ("fetch", 2, 400)]):
             scns.append({"seed": seed, "plan": {}, "steps": [("mixed", ops)] + PROBES, "dispatch": True, "n_aw": n_aw, "pos": None, "kind": "concurrent+waiter-gives-up"})
+    # a transfer WAITS OUT the whole three minutes for the lock while another zone's transfer hangs on it -- and the holder lets go (its caller's
+    # timeout) within a few milliseconds of the waiter's deadline, before or after: whichever of the two the waiter does (get the lock and carry on,
+    # or give up with the lock's TimeoutError), nothing is left behind
+    for seed in seeds[:1]:
+        for ms in (-6, -4, -2, -1, 1, 2, 3, 5, 7):
+            t_hold = 180.0 + 1 / 256 + ms / 1000
+            scns.append({"seed": seed, "plan": {"1": "hang"}, "steps": [("mixed", [("fetch", 0, t_hold), ("set", 1, 400)])] + PROBES, "n_aw": n_aw, "pos": 1,
+                         "kind": "lock-deadline-race"})
     # WRITES: zone 0 fetches, then writes a new schedule (every reply is also heard by all entities, as on the air), with one fault at each of the
     # write's exchanges in turn (or none); then another zone's schedule changes and both zones are fetched, undisturbed
     for seed in seeds:
@@ -558,7 +566,7 @@ def run(ctx: Ctx) -> None:
         case = {"seed": s["seed"], "fault": s["plan"], "steps": s["steps"], "results": res, "lock_after_each_step": o["lock_after"], "requests": o["calls"]}
         if any(x is not None for x in o["lock_after"]):
             ctx.violation("lock-left-behind", "a schedule transfer ended (failed, abandoned or completed) with the schedule lock still held", case, "fault-sequence")
-        if "lock-timeout" in res:
+        if "lock-timeout" in res and s["kind"] != "lock-deadline-race":      # (there, giving up after three minutes behind a hung transfer is the right answer)
             ctx.violation("later-transfer-blocked", "a later transfer for another zone could not obtain the lock", case, "fault-sequence")
         for e in o.get("dispatch_errors", []):
             ctx.violation("reply-heard-by-the-entities-raises:" + e.split(":")[0], "a schedule reply, delivered to the entities as the dispatcher does, raised: " + e, case, "fault-sequence")
